@@ -1,7 +1,7 @@
 """Reference model of a read-only file view and a driver that runs an operation history on a real stream
 object against it (C08/C09/C11).  Written from the property statement, not from the code under test."""
 from io import SEEK_SET, SEEK_CUR, SEEK_END
-from vf.absfile import byte_is, indices
+from vf.absfile import byte_is, indices, REAL
 
 SEEK, TELL, READ = "seek", "tell", "read"
 # operation kinds (ints so that CrossHair can keep them symbolic or pin them by a pre-condition)
@@ -9,8 +9,9 @@ K_SEEK_SET, K_SEEK_CUR, K_SEEK_END, K_READ, K_TELL = 0, 1, 2, 3, 4
 WHENCE = (SEEK_SET, SEEK_CUR, SEEK_END)
 
 
-def step(stream, length, addr_of, pos, kind, a, k):
-    """apply one operation to `stream`; return the model's new position, or -1 on a deviation"""
+def step(stream, length, addr_of, pos, kind, a, k, check_bytes=True):
+    """apply one operation to `stream`; return the model's new position, or -1 on a deviation.
+    check_bytes=False (symbolic mode only): the read's length and cursor are checked, its content is not."""
     if kind <= K_SEEK_END:
         base = 0
         if kind == K_SEEK_CUR:
@@ -33,9 +34,10 @@ def step(stream, length, addr_of, pos, kind, a, k):
             n = a
         if len(r) != n:
             return -1
-        for kk in indices(k, n):
-            if not byte_is(r, kk, addr_of(pos + kk)):
-                return -1
+        if check_bytes or REAL:
+            for kk in indices(k, n):
+                if not byte_is(r, kk, addr_of(pos + kk)):
+                    return -1
         return pos + n
     if stream.tell() != pos:
         return -1
